@@ -28,7 +28,8 @@ type c14Draw struct {
 	Data   []float64
 	Fill   []int // r g b a (non-premultiplied), nil: no fill
 	Stroke []int
-	Grad   bool // fill with a linear gradient instead of Fill (coverage is judged, not colour)
+	Grad   bool // fill with a gradient instead of Fill
+	GradR  bool `json:",omitempty"` // the gradient is radial (coverage and "painted" are judged, not its colour)
 	Width  float64
 	Cap    int
 	Join   int
@@ -163,6 +164,7 @@ func genC14Once(kind string, r *core.Rng) *c14Case {
 				d.Fill = col()
 				if r.Chance(0.1) {
 					d.Grad = true
+					d.GradR = r.Chance(0.4)
 				}
 			}
 			if sk == "open" || r.Chance(0.4) {
@@ -199,6 +201,10 @@ func genC14Once(kind string, r *core.Rng) *c14Case {
 	}
 }
 
+// mid-tone stops: a colour-space conversion applied to the caller's gradient would change them
+var c14Stop0 = color.RGBA{200, 100, 50, 255}
+var c14Stop1 = color.RGBA{30, 160, 220, 255}
+
 var c14Caps = []canvas.Capper{canvas.ButtCap, canvas.RoundCap, canvas.SquareCap}
 var c14Joins = []canvas.Joiner{canvas.MiterJoin, canvas.BevelJoin, canvas.RoundJoin}
 
@@ -228,6 +234,7 @@ type c14Layer struct {
 	smin      float64
 	seq       int
 	grad      *canvas.LinearGradient
+	gradR     *canvas.RadialGradient
 }
 
 func c14Check(ci any, o *core.Obs) {
@@ -253,10 +260,19 @@ func c14Check(ci any, o *core.Obs) {
 		ctx.SetFill(nil)
 		ctx.SetStroke(nil)
 		if d.Fill != nil {
-			if d.Grad {
-				L.grad = canvas.NewLinearGradient(canvas.Point{X: 0, Y: 0}, canvas.Point{X: c.W * c.DPMM, Y: c.H * c.DPMM})
-				L.grad.Add(0, canvas.Red)
-				L.grad.Add(1, canvas.Blue)
+			if d.Grad && d.GradR {
+				// concentric, centred on a pixel centre near the drawing position
+				cx := (math.Floor(d.X*c.DPMM) + 0.5) / c.DPMM
+				cy := (math.Floor(d.Y*c.DPMM) + 0.5) / c.DPMM
+				L.gradR = canvas.NewRadialGradient(canvas.Point{X: cx, Y: cy}, 0, canvas.Point{X: cx, Y: cy}, math.Max(d.Size, 5))
+				L.gradR.Add(0, c14Stop0)
+				L.gradR.Add(1, c14Stop1)
+				ctx.SetFillGradient(L.gradR)
+			} else if d.Grad {
+				// in canvas coordinates (mm, Y up), across the whole canvas
+				L.grad = canvas.NewLinearGradient(canvas.Point{X: 0, Y: 0}, canvas.Point{X: c.W, Y: c.H})
+				L.grad.Add(0, c14Stop0)
+				L.grad.Add(1, c14Stop1)
 				ctx.SetFillGradient(L.grad)
 			} else {
 				ctx.SetFillColor(nrgba(d.Fill))
@@ -356,8 +372,14 @@ func c14Check(ci any, o *core.Obs) {
 	}
 	for _, L := range layers {
 		if L.grad != nil {
-			if L.grad.Start != (canvas.Point{X: 0, Y: 0}) || L.grad.End != (canvas.Point{X: c.W * c.DPMM, Y: c.H * c.DPMM}) || len(L.grad.Stops) != 2 || L.grad.Stops[0].Color != canvas.Red || L.grad.Stops[1].Color != canvas.Blue {
+			if L.grad.Start != (canvas.Point{X: 0, Y: 0}) || L.grad.End != (canvas.Point{X: c.W, Y: c.H}) || len(L.grad.Stops) != 2 || L.grad.Stops[0].Color != c14Stop0 || L.grad.Stops[1].Color != c14Stop1 {
 				o.Fail("gradient-changed", "rendering changed the gradient of the caller: %+v", L.grad)
+				return
+			}
+		}
+		if L.gradR != nil {
+			if len(L.gradR.Stops) != 2 || L.gradR.Stops[0].Color != c14Stop0 || L.gradR.Stops[1].Color != c14Stop1 {
+				o.Fail("gradient-changed", "rendering changed the gradient of the caller: %+v", L.gradR)
 				return
 			}
 		}
@@ -423,6 +445,14 @@ func c14Check(ci any, o *core.Obs) {
 			}
 		}
 	}
+	for _, L := range layers {
+		if L.gradR != nil {
+			i, j := int(math.Floor(L.gradR.C0.X*c.DPMM)), int(math.Floor(float64(hpx)-L.gradR.C0.Y*c.DPMM))
+			if i >= 0 && j >= 0 && i < wpx && j < hpx {
+				samples = append(samples, px{i, j})
+			}
+		}
+	}
 	const margin = 1.5 // pixels: 1 from the property, the rest for the flattening tolerance and 26.6 rounding
 	judged, skipped := 0, 0
 	for _, s := range samples {
@@ -432,8 +462,18 @@ func c14Check(ci any, o *core.Obs) {
 		known := true
 		blended := false
 		untouched := true
+		var gradCol *[4]float64
 		paint := func(col []int, grad bool) {
 			untouched = false
+			if grad && gradCol != nil {
+				// linear gradient in the linear colour space: the colour along the gradient vector
+				blended = true // interpolation and sub-pixel position: three levels of slack
+				for ch := 0; ch < 4; ch++ {
+					exp[ch] = gradCol[ch]
+				}
+				gradCol = nil
+				return
+			}
 			if grad {
 				known = false
 				return
@@ -451,6 +491,16 @@ func c14Check(ci any, o *core.Obs) {
 		diag := ""
 		for _, L := range layers {
 			d := L.d
+			gradCol = nil
+			if d.Fill != nil && d.Grad && !d.GradR && c.CS == 0 {
+				t := (q.X*c.W + q.Y*c.H) / (c.W*c.W + c.H*c.H)
+				t = math.Min(1, math.Max(0, t))
+				gradCol = &[4]float64{}
+				a0, a1 := [4]float64{float64(c14Stop0.R), float64(c14Stop0.G), float64(c14Stop0.B), 255}, [4]float64{float64(c14Stop1.R), float64(c14Stop1.G), float64(c14Stop1.B), 255}
+				for ch := 0; ch < 4; ch++ {
+					gradCol[ch] = (1-t)*a0[ch] + t*a1[ch]
+				}
+			}
 			if d.Fill != nil {
 				dist := geom.DistPtPolys(q, L.fillDev) * c.DPMM
 				diag += fmt.Sprintf(" shape %d: %.1f px from the outline, winding %d;", L.seq, dist, geom.Winding(q, L.fillDev))
